@@ -5,7 +5,8 @@ from props._util import rng_for, run_cases
 LEVEL = "other"
 DEDUCTIVE = [{"module": "rnapolis.parser", "sidecar": "contracts.parser_c",
               "targets": ["read_3d_structure", "group_atoms", "lemma:close_run", "lemma:close_run_keys", "lemma:extend_open", "lemma:start_open",
-                          "parse_pdb@decode", "lemma:record_names", "lemma:decoded_snoc"]}]
+                          "parse_pdb@decode", "lemma:record_names", "lemma:decoded_snoc",
+                          "filter_clashing_atoms", "filter_clashing_atoms@single"]}]
 TRUSTED = ["mmcif IoAdapterPy tokeniser", "scipy KD-tree", "float()/int() of well-formed numerals", "CPython 3.12"]
 ASSUMPTIONS = ["ties in occupancy leave the surviving copy unspecified (either is accepted)"]
 EXPLANATION = "see DESIGN.md 4/C08"
